@@ -8,6 +8,8 @@ matching relation (which chiplet column carries which operand) is taken from the
    U32AND / U32XOR   <-> last row of a bitwise cycle with a = s1, b = s0, z = s0', selector = operation
    MLOADW / MSTOREW  <-> memory row with ctx, addr = s0, clk, word v_i = s'_{3-i}, read / write selector
    MLOAD / MSTORE    <-> memory row with word (s0', h2, h1, h0)
+   SPAN / JOIN / SPLIT / LOOP / CALL / DYN <-> hasher row starting the block's hash (rate = h0..h7, capacity = (0, opcode | 0, 0, 0))
+   END               <-> hasher row returning the block hash (digest = h0..h3)
    RESPAN            <-> hasher row absorbing the next batch (ABP, last row of a hash cycle), addressed by the
                          next batch's hasher address and not by the decoder row
 z3 decides  matching  =>  request == response, and that rows which are not the last of a bitwise cycle
@@ -123,9 +125,35 @@ def main():
     DEC = c["DECODER"]
     cases.append(dict(op="Respan", chip_row=15, op_row=40, next_consts={DEC: 17}, chip={ch: 0, HS: 1, HS + 1: 0, HS + 2: 0},
                       what="hasher row absorbing the next operation batch (ABP)", match=lambda cur, nxt, q: [(q(HIDX), Lin({}, 0))]))
+    # block starts <-> hasher row that begins the block's hash (BP selectors, first row of a cycle, hasher
+    # address 17 = chiplet row 16): rate = the decoder's h0..h7, capacity = (0, opcode, 0, 0) for control
+    # blocks and zero for SPAN, node index 0 (docs/src/design/decoder/main.md, chiplets/hasher.md)
+    DH = c["HASHER_STATE"]
+
+    def block_match(opcode_in_capacity):
+        def mrel(cur, nxt, q):
+            return [(q(HST + 4 + i), cur(DH + i)) for i in range(8)]
+        return mrel
+
+    def block_chip(opcode_in_capacity):
+        # capacity (0, opcode | 0, 0, 0) and node index 0 are concrete cells of the chiplet row
+        d = {ch: 0, HS: 1, HS + 1: 0, HS + 2: 0, HIDX: 0}
+        d.update({HST + j: (opcode_in_capacity if j == 1 else 0) for j in range(4)})
+        return d
+    for opname in ("Span", "Join", "Split", "Loop", "Call", "Dyn"):
+        if opname not in meta.ops:
+            continue
+        oc = meta.ops[opname]["opcode"]
+        cases.append(dict(op=opname, chip_row=16, op_row=40, next_consts={DEC: 17}, chip=block_chip(0 if opname == "Span" else oc),
+                          what="hasher row starting the block's hash (BP)", match=block_match(0 if opname == "Span" else oc)))
+    # END <-> hasher row returning the block's hash (HOUT selectors, last row of the cycle that started at address 17)
+    cases.append(dict(op="End", chip_row=23, op_row=40, cur_consts={DEC: 17}, chip={ch: 0, HS: 0, HS + 1: 0, HS + 2: 0},
+                      what="hasher row returning the block hash (HOUT)",
+                      match=lambda cur, nxt, q: [(q(HST + 4 + i), cur(DH + i)) for i in range(4)] + [(q(HIDX), Lin({}, 0))]))
     for case in cases:
         opcode = meta.ops[case["op"]]["opcode"]
         op_consts = {int(k): v for k, v in meta.opcode_consts(opcode).items()}
+        op_consts.update(case.get("cur_consts", {}))
         tag = f"bus:{case['op']} <-> {case['what']}"
         try:
             paths = run_pair(interp, op_consts, case["chip_row"], case["chip"], case.get("op_row", 0), case.get("next_consts"))
@@ -172,8 +200,8 @@ def main():
         samples=V.obligations[:8], obligations=len(V.obligations), discharged=c_.get("discharged", 0), queries=cov["queries"],
         functions_encoded=["processor chiplets::aux_trace::BusColumnBuilder::{get_requests_at, get_responses_at}, build_bitwise_request, build_mem_request_word, build_mem_request_element, "
                            "compute_memory_request, build_bitwise_chiplet_responses, build_memory_chiplet_responses, get_op_label (MIR)", "miden-air MainTrace accessors (MIR)"],
-        bounds="one operation row and one chiplet row, all cells and challenges symbolic; operations U32AND, U32XOR, MLOADW, MSTOREW, MLOAD, MSTORE, RESPAN (concrete hasher address 17, decoder row 40)",
-        not_covered="multiset equality over whole traces; hasher, kernel-ROM, MSTREAM/PIPE/RCOMBBASE messages; decoder virtual tables; range-checker LogUp; the request side of the range checker (seed c03a)",
+        bounds="one operation row and one chiplet row, all cells and challenges symbolic; operations U32AND, U32XOR, MLOADW, MSTOREW, MLOAD, MSTORE; SPAN, JOIN, SPLIT, LOOP, CALL, DYN, RESPAN, END against the hasher (concrete hasher address 17, decoder row 40)",
+        not_covered="multiset equality over whole traces; HPERM / MPVERIFY / MRUPDATE, SYSCALL (kernel ROM), MSTREAM/PIPE/RCOMBBASE messages; decoder virtual tables; range-checker LogUp; the request side of the range checker (seed c03a)",
         sources_fingerprint=repo_fingerprint(["processor/src/chiplets/aux_trace", "air/src/trace/main_trace.rs"]),
         evaluations=len(V.obligations), distinct_nontrivial=c_.get("discharged", 0), rule="one obligation per (operation, chiplet row kind, path)",
     )
@@ -186,6 +214,9 @@ BUS_PROGRAMS = {
     "MLoadW": "begin push.1.2.3.4 mem_storew.7 dropw padw mem_loadw.7 dropw end", "MStoreW": "begin push.1.2.3.4 mem_storew.7 dropw end",
     "MLoad": "begin push.1.2.3.4 mem_storew.3 dropw mem_load.3 drop end", "MStore": "begin push.1.2.3.4 mem_storew.3 dropw push.9 mem_store.3 end",
     "Respan": "begin repeat.80 push.1 drop end end",
+    "Span": "begin push.1 drop end", "End": "begin push.1 if.true push.2 drop else push.3 drop end end",
+    "Join": "begin push.1 if.true push.2 drop else push.3 drop end push.4 drop end", "Split": "begin push.1 if.true push.2 drop else push.3 drop end end",
+    "Loop": "begin push.1 while.true push.0 end end", "Call": "proc.f push.1 drop end begin call.f end", "Dyn": "begin push.1 drop end",
 }
 # further programs per operation: reads of addresses never written before (first access), several batches
 BUS_PROGRAMS_MORE = {
